@@ -1,11 +1,15 @@
 package main
 
 import (
+	"bytes"
 	"context"
 	"fmt"
+	"io"
 	"os"
 	"strconv"
+	"strings"
 	"sync"
+	"sync/atomic"
 	"syscall"
 	"time"
 
@@ -85,6 +89,115 @@ func daemonRun(r *vlib.Rng, nsess int, big, uncorrelated, race, phased bool) *da
 	res.races, res.raceSum = d.raceReports()
 	res.ok = true
 	return res
+}
+
+// daemonBurst: one correlated session whose events alternate between small and
+// large (10-40 KiB, far beyond any 4 KiB write buffer) on the audit pipe while
+// the sshd pipe carries a burst of failed-login lines at the same time: both
+// pipelines write to the shared output continuously and concurrently.
+func daemonBurst(r *vlib.Rng, nAudit, nSshd int, race bool) *daemonRunResult {
+	res := &daemonRunResult{sc: &dScenario{Window: -1}}
+	d, err := startDaemon(daemonOpts{race: race})
+	if err != nil {
+		res.why = "cannot start daemon: " + err.Error()
+		return res
+	}
+	defer d.cleanup()
+	ws, err1 := openFifoWriter(d, d.sshdPath)
+	wa, err2 := openFifoWriter(d, d.auditPath)
+	if err1 != nil || err2 != nil {
+		res.why = fmt.Sprintf("cannot open FIFOs: %v %v", err1, err2)
+		return res
+	}
+	defer ws.Close()
+	defer wa.Close()
+	se := &dSession{K: 1, Pid: 555001, Sid: "55501", User: "burst", KeyID: "burst@example.com", Addr: "10.5.5.5", Port: "5555", HasLogin: true, HasRec: true}
+	res.sc.Sessions = []*dSession{se}
+	io.WriteString(ws, loginLine(se))
+	if !d.waitForOutput(func(b []byte) bool { return bytes.Contains(b, []byte(`"loggedAs":"burst"`)) }, 60*time.Second) {
+		res.why = "burst: the login was not written"
+		return res
+	}
+	io.WriteString(wa, vlib.AuLogin(vlib.BaseTSms, 5000, "555001", "55501")+"\n")
+	var wg sync.WaitGroup
+	wg.Add(2)
+	go func() {
+		defer wg.Done()
+		for k := 1; k <= nAudit; k++ {
+			args := []string{"tar", "czf", fmt.Sprintf("/tmp/%d.tgz", k)}
+			if k%2 == 0 {
+				for a := 0; a < 400+r.Intn(1200); a++ {
+					args = append(args, fmt.Sprintf("file-number-%06d", a))
+				}
+			}
+			ls := vlib.ExecSpec{TSms: vlib.BaseTSms + int64(k), Seq: uint32(5000 + k), PID: 555002, Ses: "55501", Success: "yes", Exe: "/usr/bin/tar", Args: args, Paths: []string{"/usr/bin/tar"}, Cwd: "/"}.Lines()
+			if _, err := io.WriteString(wa, strings.Join(ls, "\n")+"\n"); err != nil {
+				return
+			}
+			se.EvTS = append(se.EvTS, vlib.BaseTSms+int64(k))
+		}
+	}()
+	var stopSshd int32
+	sshdLines := 0
+	go func() {
+		defer wg.Done()
+		// keeps writing until the audit side's last event has come out (at least nSshd lines)
+		for k := 0; k < nSshd || atomic.LoadInt32(&stopSshd) == 0; k++ {
+			if _, err := io.WriteString(ws, fmt.Sprintf("%d Invalid user burst%d from 192.0.2.%d port %d\n", 600000+k, k, k%250, 1024+k%60000)); err != nil {
+				return
+			}
+			sshdLines++
+			if k > 3000000 {
+				return
+			}
+		}
+	}()
+	// the audit pipeline lags behind its writer: wait until its last event is in the output
+	lastMark := []byte(fmt.Sprintf("/tmp/%d.tgz", nAudit))
+	deadline := time.Now().Add(120 * time.Second)
+	for time.Now().Before(deadline) && !d.hasExited() {
+		if tail := fileTail(d.outPath, 1<<20); bytes.Contains(tail, lastMark) {
+			break
+		}
+		time.Sleep(20 * time.Millisecond)
+	}
+	atomic.StoreInt32(&stopSshd, 1)
+	wg.Wait()
+	res.sc.FailLogins = sshdLines
+	res.overlaps = 1
+	if !markerBarrier(d, ws, wa, 120*time.Second) {
+		exited, dump := d.waitExit(time.Second)
+		res.why = fmt.Sprintf("burst: marker barrier not reached (daemon exited=%v): %s", exited, trunc(d.stderr.String()+dump, 1200))
+		return res
+	}
+	_ = d.cmd.Process.Signal(syscall.SIGTERM)
+	if exited, _ := d.waitExit(60 * time.Second); !exited {
+		res.why = "burst: daemon did not exit after SIGTERM"
+		return res
+	}
+	res.out = parseOutput(d.outputRaw())
+	res.races, res.raceSum = d.raceReports()
+	res.ok = true
+	return res
+}
+
+func fileTail(path string, n int64) []byte {
+	f, err := os.Open(path)
+	if err != nil {
+		return nil
+	}
+	defer f.Close()
+	st, err := f.Stat()
+	if err != nil {
+		return nil
+	}
+	off := st.Size() - n
+	if off < 0 {
+		off = 0
+	}
+	b := make([]byte, st.Size()-off)
+	_, _ = f.ReadAt(b, off)
+	return b
 }
 
 // openFifoWriter opens a FIFO for writing without hanging for ever if the
@@ -292,6 +405,35 @@ func checkC10(r *vlib.Run) int {
 			}
 		}
 	}
+	// sustained concurrent writing with large events
+	for b := 0; b < r.Pick(1, 6); b++ {
+		rng := vlib.NewRng(r.Seed, fmt.Sprintf("C10/burst/%d", b))
+		res := daemonBurst(rng, r.Pick(1500, 4000), r.Pick(15000, 40000), false)
+		if !res.ok {
+			r.Broken("burst scenario could not be observed: " + res.why)
+			continue
+		}
+		evals++
+		c10Check(r, res, "daemon-burst")
+		want := len(res.sc.Sessions[0].EvTS) + 1
+		got := 0
+		for i := range res.out.Events {
+			if res.out.Events[i].Metadata.AuditID == "55501" {
+				got++
+			}
+		}
+		if got != want {
+			r.Violation("C10:daemon-burst:session-event-count", fmt.Sprintf("%d events of the burst session were written, %d were sent", got, want), map[string]any{"burst": b})
+		}
+		lines += len(res.out.Events)
+		bytesTotal += res.out.Bytes
+		if res.out.Largest > largest {
+			largest = res.out.Largest
+		}
+		r.Add("burst_scenarios", 1)
+		r.Add("burst_output_lines", len(res.out.Events))
+		dist.Add(fmt.Sprintf("burst|%d", b))
+	}
 	nIP := r.Pick(200, 20000) / 20
 	ip := runChildren(r, "mon-race", "c10", nIP, (nIP+15)/16, 15*time.Minute)
 	for _, k := range ip.distinct.Keys() {
@@ -313,7 +455,7 @@ func checkC10(r *vlib.Run) int {
 	r.Require(ip.stats["useractions_order_checked"] > 100, "too few in-process order checks")
 	r.Assumptions = []string{"atomicity of one write(2) on an O_APPEND regular file is an OS guarantee that is observed, not established",
 		"a daemon that dies or never reaches the marker barrier makes the run 'check broken', not a violation of this property"}
-	return r.Finish(evals+ip.stats["handoffs"], dist.Len(), "built daemon, two FIFOs written concurrently by two writers within a window of 0/1/4/32/unbounded items, 50-500 sessions with events from 200 B to 64 KiB, marker-session barrier, SIGTERM, then every output line must be one whole JSON audit event, written once, each UserAction after the UserLogin with its identity; plus in-process runs under -race with one shared writer and login line / LOGIN record released at the same instant; distinct = (build, window, session count) and in-process batch shapes")
+	return r.Finish(evals+ip.stats["handoffs"], dist.Len(), "built daemon, two FIFOs written concurrently by two writers within a window of 0/1/4/32/unbounded items, 50-500 sessions with events from 200 B to 64 KiB, marker-session barrier, SIGTERM, then every output line must be one whole JSON audit event, written once, each UserAction after the UserLogin with its identity; plus a burst scenario (one session alternating small and 10-40 KiB events while the sshd pipe carries 15000+ failed-login lines); plus in-process runs under -race with one shared writer and login line / LOGIN record released at the same instant; distinct = (build, window, session count) and in-process batch shapes")
 }
 
 // daemonCorrelation is level (c) of C01/C02/C04 (thorough tier): identities,
